@@ -170,14 +170,15 @@ def parseEnding (s : String) : Option Ending :=
 def parseBit (s : String) : Option Bool :=
   if s = "1" then some true else if s = "0" then some false else none
 
-/-- `<connects>:<status>:<framing>:<gzip>:<arrived>:<end>:<plain>:<gzipOk>` -/
+/-- `<connects>:<status>:<framing>:<gzip>:<arrived>:<end>:<plain>:<gzipOk>:<digestOk>` -/
 def parseWire (s : String) : Option Wire :=
   match s.splitOn ":" with
-  | [c, st, f, g, a, e, pl, gz] =>
-    match parseBit c, st.toNat?, parseFraming f, parseBit g, a.toNat?, parseEnding e, pl.toNat?, parseBit gz with
-    | some c, some st, some f, some g, some a, some e, some pl, some gz =>
-      some { connects := c, status := st, framing := f, gzip := g, arrived := a, ending := e, plain := pl, gzipOk := gz }
-    | _, _, _, _, _, _, _, _ => none
+  | [c, st, f, g, a, e, pl, gz, dg] =>
+    match parseBit c, st.toNat?, parseFraming f, parseBit g, a.toNat?, parseEnding e, pl.toNat?, parseBit gz, parseBit dg with
+    | some c, some st, some f, some g, some a, some e, some pl, some gz, some dg =>
+      some { connects := c, status := st, framing := f, gzip := g, arrived := a, ending := e, plain := pl, gzipOk := gz,
+             digestOk := dg }
+    | _, _, _, _, _, _, _, _, _ => none
   | _ => none
 
 def parseWires (s : String) : Option (List Wire) :=
@@ -185,16 +186,16 @@ def parseWires (s : String) : Option (List Wire) :=
     | some w, some l => some (w :: l)
     | _, _ => none) (some [])
 
-/-- `none` | `<require|warn|disable>:<sigOk>:<hashOk>` -/
+/-- `none` | `<require|warn|disable>:<sigOk>` -/
 def parseVerif (s : String) : Option (Option Verif) :=
   if s = "none" then some none
   else match s.splitOn ":" with
-    | [p, a, b] =>
+    | [p, a] =>
       let pol : Option Policy := if p = "require" then some .require else if p = "warn" then some .warn
         else if p = "disable" then some .disable else none
-      match pol, parseBit a, parseBit b with
-      | some pol, some a, some b => some (some { policy := pol, sigOk := a, hashOk := b })
-      | _, _, _ => none
+      match pol, parseBit a with
+      | some pol, some a => some (some { policy := pol, sigOk := a })
+      | _, _ => none
     | _ => none
 
 def outcomeStr : Outcome → String
